@@ -33,7 +33,7 @@ TCompile == /\ IsEvent("Compile")
             /\ nO' = nO + (IF Ev.cls = "O" THEN 1 ELSE 0)
 
 TOther == /\ l <= Len(TraceLog)
-          /\ Ev.e \in {"Reset", "End", "CompilerExit", "NewRegion", "Alloc", "AllocFail", "Free"}
+          /\ Ev.e \notin {"Compile", "Died", "Crash"}      \* the other hooks' vocabularies are not this check's
           /\ l' = l + 1 /\ UNCHANGED <<nS, nF, nO>>
 
 TNext == TCompile \/ TOther
